@@ -75,7 +75,9 @@ class RepeatedTimer:
     def stop(self):
         """Stop and shutdown the timer."""
         self.event.set()
-        self.thread.join()
+        # a call that is in flight and hangs (a service that does not answer) must not hold up a shutdown for ever:
+        # the thread is a daemon, and it ends as soon as the call returns
+        self.thread.join(10)
 
     def _target(self):
         while not self.event.wait(self._time):
